@@ -27,6 +27,7 @@ type OffWriter struct {
 	Why    string
 	Gated  bool // inside `case <-ds.WaitFull:` (runs only once the incremental phase has begun)
 	InLoop bool
+	Name   string // construct name used in the obligation key: "ack-goroutine" or the body name
 }
 
 func hasMutex(b MBody) bool {
@@ -42,6 +43,121 @@ func hasMutex(b MBody) bool {
 	return found
 }
 
+// gRoot is one goroutine that may execute a given statement.
+type gRoot struct {
+	Kind      string // "golit", "gofn", "sync", "parser", "unknown"
+	Lit       *ast.FuncLit
+	Fn        *types.Func
+	InSyncCmd bool     // the go statement stands in syncCommand, next to the parser's
+	Loop      bool     // the statement, or a call on the chain leading to it, lies in a loop
+	SyncNode  ast.Node // the statement of Sync through which the chain passes
+}
+
+// nodeHas reports whether root contains, itself or through module callees up
+// to depth levels, a node accepted by pred.
+func nodeHas(c *core.Ctx, info *types.Info, root ast.Node, depth int, pred func(*types.Info, ast.Node) bool) bool {
+	found := false
+	core.InspectAll(root, func(n ast.Node) bool {
+		if found {
+			return false
+		}
+		if pred(info, n) {
+			found = true
+		} else if call, ok := n.(*ast.CallExpr); ok && CalleeHas(c, info, call, depth, pred) {
+			found = true
+		}
+		return !found
+	})
+	return found
+}
+
+// goroutinesOf finds the goroutines that may execute node (a statement of body b),
+// following plain call sites and locally bound closures upwards.
+func goroutinesOf(c *core.Ctx, b MBody, node ast.Node, depth int) []gRoot {
+	syncFn := c.LookupFunc(DbSync, Syncer, "Sync")
+	syncCmd := c.LookupFunc(DbSync, Syncer, "syncCommand")
+	parse := c.LookupFunc(DbSync, Syncer, "parseSourceCommand")
+	sites := GoSites(c)
+	info := b.Pkg.TypesInfo
+	loopHere := InLoop(b.Root(), node)
+	mark := func(rs []gRoot) []gRoot {
+		for i := range rs {
+			rs[i].Loop = rs[i].Loop || loopHere
+		}
+		return rs
+	}
+	if depth == 0 {
+		return []gRoot{{Kind: "unknown"}}
+	}
+	if b.Lit != nil {
+		// innermost go-started literal around (or equal to) this literal
+		var goLit *ast.FuncLit
+		for _, pn := range core.PathTo(b.Decl.Body, b.Lit) {
+			if fl, ok := pn.(*ast.FuncLit); ok {
+				for _, g := range sites {
+					if g.Lit == fl {
+						goLit = fl
+					}
+				}
+			}
+		}
+		if goLit != nil {
+			return mark([]gRoot{{Kind: "golit", Lit: goLit, Loop: goLit != b.Lit && InLoop(goLit, b.Lit)}})
+		}
+		// a literal bound to a local and called in place runs where it is called
+		var out []gRoot
+		core.InspectAll(b.Decl.Body, func(m ast.Node) bool {
+			as, ok := m.(*ast.AssignStmt)
+			if !ok || len(as.Rhs) != 1 || len(as.Lhs) != 1 || ast.Unparen(as.Rhs[0]) != ast.Expr(b.Lit) {
+				return true
+			}
+			id, ok := as.Lhs[0].(*ast.Ident)
+			if !ok {
+				return true
+			}
+			obj := core.ObjOf(info, id)
+			for _, ob := range AllBodies(c) {
+				if ob.Decl != b.Decl {
+					continue
+				}
+				core.Inspect(ob.Root(), func(k ast.Node) bool {
+					if call, ok := k.(*ast.CallExpr); ok {
+						if cid, ok := ast.Unparen(call.Fun).(*ast.Ident); ok && core.ObjOf(info, cid) == obj {
+							out = append(out, goroutinesOf(c, ob, call, depth-1)...)
+						}
+					}
+					return true
+				})
+			}
+			return true
+		})
+		if len(out) == 0 {
+			return []gRoot{{Kind: "unknown"}}
+		}
+		return mark(out)
+	}
+	switch {
+	case parse != nil && b.Decl == parse.Decl:
+		return mark([]gRoot{{Kind: "parser"}})
+	case syncFn != nil && b.Decl == syncFn.Decl:
+		return mark([]gRoot{{Kind: "sync", SyncNode: node}})
+	}
+	declObj, _ := info.Defs[b.Decl.Name].(*types.Func)
+	calls := CallsTo(c, declObj)
+	if len(calls) == 0 {
+		return []gRoot{{Kind: "unknown"}}
+	}
+	var out []gRoot
+	for _, cs := range calls {
+		if cs.IsGo {
+			out = append(out, gRoot{Kind: "gofn", Fn: declObj, InSyncCmd: syncCmd != nil && cs.In.Lit == nil && cs.In.Decl == syncCmd.Decl})
+			continue
+		}
+		out = append(out, goroutinesOf(c, cs.In, cs.Call, depth-1)...)
+	}
+	return mark(out)
+}
+
 // OffsetWriters classifies every write of ds.sourceOffset by the goroutine
 // that executes it relative to the parser goroutine, which reads the field
 // without synchronisation for every command it enqueues.
@@ -52,21 +168,32 @@ func OffsetWriters(c *core.Ctx) []OffWriter {
 	if syncFn == nil || syncCmd == nil || parse == nil {
 		return nil
 	}
-	sites := GoSites(c)
+	ack := c.LookupFunc(Common, "", "SendPSyncAck")
 	gs := cfgq.Of(c.Program, syncFn)
 	startCall := gs.HasCall(func(call *ast.CallExpr, callee types.Object) bool { return callee == types.Object(syncCmd.Obj) })
 	// afterStart: node of Sync reachable after the call that starts the incremental goroutines
 	afterStart := func(n ast.Node) bool {
+		pt, ok := gs.Find(n)
+		if !ok {
+			return true
+		}
+		tn := pt.Node()
 		for _, sp := range gs.Points(startCall) {
-			if gs.Path(cfgq.Query{From: sp, After: true, Target: func(m ast.Node) bool { return m == n }}) != nil {
+			if gs.Path(cfgq.Query{From: sp, After: true, Target: func(m ast.Node) bool { return m == tn }}) != nil {
 				return true
 			}
 		}
 		return false
 	}
+	sendsAck := func(info *types.Info, root ast.Node) bool {
+		return ack != nil && nodeHas(c, info, root, 3, func(i *types.Info, m ast.Node) bool {
+			call, ok := m.(*ast.CallExpr)
+			return ok && core.CalleeFunc(i, call) == ack.Obj
+		})
+	}
 	var out []OffWriter
 	for _, w := range FieldWrites(c, Syncer, "sourceOffset") {
-		ow := OffWriter{W: w, Class: "unknown"}
+		ow := OffWriter{W: w, Class: "unknown", Name: w.In.Name}
 		b := w.In
 		info := b.Pkg.TypesInfo
 		ow.InLoop = InLoop(b.Root(), w.Stmt)
@@ -80,89 +207,62 @@ func OffsetWriters(c *core.Ctx) []OffWriter {
 				})
 			}
 		}
-		// a literal runs in the goroutine of the innermost go-started literal around it, else in its declaring function's
-		goLit, plainLit := false, false
-		if b.Lit != nil {
-			for _, pn := range core.PathTo(b.Decl.Body, b.Lit) {
-				if fl, ok := pn.(*ast.FuncLit); ok {
-					for _, gsite := range sites {
-						if gsite.Lit == fl {
-							goLit = true
-						}
-					}
-				}
-			}
-			if !goLit {
-				// only literals bound to a local and called in place are followed
-				called := false
-				core.InspectAll(b.Decl.Body, func(m ast.Node) bool {
-					if as, ok := m.(*ast.AssignStmt); ok && len(as.Rhs) == 1 && ast.Unparen(as.Rhs[0]) == ast.Expr(b.Lit) && len(as.Lhs) == 1 {
-						if id, ok := as.Lhs[0].(*ast.Ident); ok {
-							obj := core.ObjOf(info, id)
-							core.InspectAll(b.Decl.Body, func(k ast.Node) bool {
-								if call, ok := k.(*ast.CallExpr); ok {
-									if cid, ok := ast.Unparen(call.Fun).(*ast.Ident); ok && core.ObjOf(info, cid) == obj {
-										called = true
-									}
-								}
-								return true
-							})
-						}
-					}
-					return true
-				})
-				plainLit = !called
-			}
-		}
 		switch {
 		case w.Tok == token.AND:
 			ow.Why = "the address of the field is taken"
+			out = append(out, ow)
+			continue
 		case hasMutex(b):
 			ow.Why = "the body takes a lock; lock discipline of the field is not analysed"
-		case goLit:
-			if ow.InLoop || ow.Gated {
-				ow.Class, ow.Why = "concurrent", "written repeatedly by a goroutine started with `go func(){...}()`"
-			} else {
-				ow.Why = "written once by a separately started goroutine"
-			}
-		case plainLit:
-			ow.Why = "written inside a closure whose caller is not followed"
-		case b.Decl == parse.Decl:
-			ow.Class, ow.Why = "parser", "written by the goroutine that reads it"
-		case b.Decl == syncFn.Decl:
-			if pt, ok := gs.Find(w.Stmt); ok && !afterStart(pt.Node()) {
-				ow.Class, ow.Why = "before-start", "written by Sync before it starts the incremental goroutines"
-			} else {
-				ow.Why = "written by Sync after syncCommand was called"
-			}
-		default:
-			declObj, _ := info.Defs[b.Decl.Name].(*types.Func)
-			calls := CallsTo(c, declObj)
-			allBefore := len(calls) > 0
-			viaGo := false
-			for _, cs := range calls {
-				if cs.IsGo {
-					viaGo = true
-					allBefore = false
-					if cs.In.Lit == nil && cs.In.Decl == syncCmd.Decl {
-						ow.Class, ow.Why = "concurrent", "written by a goroutine that syncCommand starts next to the parser"
+			out = append(out, ow)
+			continue
+		}
+		conc, unknown, okClass, okWhy := "", "", "", ""
+		for _, r := range goroutinesOf(c, b, w.Stmt, 4) {
+			switch r.Kind {
+			case "parser":
+				okClass, okWhy = "parser", "written by the goroutine that reads it"
+			case "sync":
+				if afterStart(r.SyncNode) {
+					unknown = "written by Sync (or a function it calls) after syncCommand was called"
+				} else if okClass == "" {
+					okClass, okWhy = "before-start", "written by Sync, or a function Sync calls, before it starts the incremental goroutines"
+				}
+			case "golit", "gofn":
+				what := "a goroutine started with `go func(){...}()`"
+				var root ast.Node = r.Lit
+				rinfo := info
+				if r.Kind == "gofn" {
+					what = "a function started with `go`"
+					root = nil
+					if fn := c.FnOf(r.Fn); fn != nil {
+						root, rinfo = fn.Decl.Body, fn.Pkg.TypesInfo
 					}
-					continue
 				}
-				pt, ok := gs.Find(cs.Call)
-				if cs.In.Lit != nil || cs.In.Decl != syncFn.Decl || !ok || afterStart(pt.Node()) {
-					allBefore = false
+				switch {
+				case r.InSyncCmd:
+					conc = "written by a goroutine that syncCommand starts next to the parser"
+				case r.Loop || ow.Gated:
+					conc = "written repeatedly by " + what
+				default:
+					unknown = "written once by a separately started goroutine"
 				}
-			}
-			switch {
-			case ow.Class == "concurrent":
-			case allBefore:
-				ow.Class, ow.Why = "before-start", "written by a function that Sync calls before it starts the incremental goroutines"
-			case viaGo && ow.InLoop:
-				ow.Class, ow.Why = "concurrent", "written in a loop of a function started with `go`"
+				if conc != "" && root != nil && sendsAck(rinfo, root) {
+					ow.Name = "ack-goroutine"
+				}
 			default:
-				ow.Why = "cannot tell which goroutine executes the write"
+				unknown = "cannot tell which goroutine executes the write"
 			}
+		}
+		switch {
+		case conc != "":
+			ow.Class, ow.Why = "concurrent", conc
+		case unknown != "":
+			ow.Why = unknown
+		case okClass != "":
+			ow.Class, ow.Why = okClass, okWhy
+		default:
+			ow.Why = "cannot tell which goroutine executes the write"
 		}
 		out = append(out, ow)
 	}
@@ -174,7 +274,7 @@ func OffsetWriters(c *core.Ctx) []OffWriter {
 func ReportWriters(c *core.Ctx, rule, prefix, consequence string) int {
 	ws := OffsetWriters(c)
 	for _, ow := range ws {
-		key := prefix + ow.W.In.Name
+		key := prefix + ow.Name
 		pos := ow.W.Stmt.Pos()
 		switch ow.Class {
 		case "parser", "before-start":
@@ -329,9 +429,18 @@ func PSyncCalls(c *core.Ctx, rule string, only string) int {
 		return 0
 	}
 	n := 0
+	var scope map[*types.Func]bool
+	if only != "" {
+		if root := c.LookupFunc(DbSync, Syncer, only); root != nil {
+			scope = PlainCallees(c, root, 2) // the call may sit in a helper extracted from `only`
+		}
+	}
 	for _, cs := range CallsTo(c, fn.Obj) {
-		if only != "" && cs.In.Decl.Name.Name != only {
-			continue
+		if only != "" {
+			declObj, _ := cs.In.Pkg.TypesInfo.Defs[cs.In.Decl.Name].(*types.Func)
+			if !scope[declObj] || only == "runIncrementalSync" && cs.In.Decl.Name.Name == "sendPSyncCmd" {
+				continue
+			}
 		}
 		n++
 		info := cs.In.Pkg.TypesInfo
